@@ -30,7 +30,8 @@ def shards(tier, seed):
         n_sh, n, nmax, budget = 16, 5000, 300000, 600
     return [{"name": f"plans{i}", "threads": 1, "timeout": budget * 4 + 300,
              "params": {"seed": seed, "shard": i, "n": n, "nmax": nmax, "budget_s": budget}}
-            for i in range(n_sh)]
+            for i in range(n_sh)] + ([{"name": "repo-tests", "threads": 4, "timeout": 1800,
+                                       "params": {"kind": "repo-tests"}}] if tier == "thorough" else [])
 
 
 def lpsd_eq(rec, cfg):
@@ -70,6 +71,8 @@ def extra(rec, cfg, rng, i):
 
 
 def run_shard(params, rec):
+    if params.get("kind") == "repo-tests":
+        return planwork.run_repo_tests(ID, rec)
     planwork.run_mixed_shard(ID, params, rec, extra)
 
 
